@@ -336,4 +336,54 @@ class C13(Prop):
         return 1 if n else 0
 
 
-PROPS = {"C13": C13(), "C15": C15(), "C14": C14(), "C07": C07(), "C08": C08(), "C09": C09(), "C10": C10(), "C04": C04(), "C12": C12(), "C02": C02(), "C01": C01(), "C05": C05(), "C06": C06(), "C20": C20(), "C19": C19(), "C17": C17(), "C18": C18()}
+class C16(Prop):
+    cmd = "c16"
+    rule = ("controlled schedules at the hook yield points (before every shared-string registration, before the table dump, save begin/end): exhaustive DFS over all "
+            "interleavings of 2 savers x 1..3 (thorough: 4) strings for equal / disjoint / overlapping string sets and for one workbook shared by reference, both writers; "
+            "seeded random/priority schedules for 2-3 savers x 2-8 strings; free-running stress; thorough adds the same stress under ThreadSanitizer and under Miri (8 seeds); "
+            "distinct = distinct interleavings (sequence of saver ids at yield points, per configuration)")
+    assumptions = ["oracle: text cells and string table of every output, read from the file by a scanner without library code, equal the solo content of that workbook; per-saver index conservation on the hook log",
+                   "yield points sit outside every lock region (hook arguments are computed into locals first), so parking cannot manufacture a deadlock; 'no quiescence within 20 s' is reported as inconclusive, not as deadlock",
+                   "ThreadSanitizer / Miri reports fail the run; if those toolchains cannot build, the stage is recorded as unavailable and the verdict rests on the controlled schedules"]
+
+    def post(self, v, res, out, tier, seed):
+        v.extra["distinct_interleavings"] = res.get("distinct_interleavings")
+        v.exhaustive = False
+        v.extra["exhaustive_small_configurations"] = bool(res.get("exhaustive_small_configurations"))
+        if tier != "thorough":
+            return
+        env = dict(os.environ, CARGO_NET_OFFLINE="true")
+        hdir = os.path.join(vlib.VERIF, "harness")
+        # ThreadSanitizer: needs -Zbuild-std (ABI mismatch otherwise)
+        tdir = os.path.join(vlib.TARGET, "tsan")
+        b = subprocess.run(["cargo", "+nightly", "build", "--offline", "-Zbuild-std", "--target", "x86_64-unknown-linux-gnu", "--target-dir", tdir], cwd=hdir,
+                           env=dict(env, RUSTFLAGS="-Zsanitizer=thread --cfg umya_verif"), stdout=subprocess.PIPE, stderr=subprocess.STDOUT, text=True)
+        if b.returncode != 0:
+            v.extra["tsan"] = "unavailable: build failed"
+            vlib.log(b.stdout[-1500:])
+        else:
+            r = subprocess.run([os.path.join(tdir, "x86_64-unknown-linux-gnu", "debug", "uvh"), "c16stress", "--rounds", "4000", "--seed", str(seed)],
+                               env=dict(env, TSAN_OPTIONS="halt_on_error=1 exitcode=66"), stdout=subprocess.PIPE, stderr=subprocess.PIPE, text=True, timeout=3000)
+            v.extra["tsan"] = {"rounds": 4000, "exit": r.returncode, "stdout": r.stdout[-300:]}
+            v.evaluations += 4000
+            if r.returncode == 66 or "ThreadSanitizer" in r.stderr:
+                v.add_divergence("tsan-report", [], 1, [{"cmd": "c16stress", "seed": seed, "case": 0, "sig": "tsan-report", "features": [], "detail": r.stderr[-1500:]}])
+            elif r.returncode != 0:
+                v.add_divergence("stress-divergence-under-tsan", [], 1, [{"cmd": "c16stress", "seed": seed, "case": 0, "sig": "stress-divergence-under-tsan", "features": [], "detail": r.stdout[-1500:]}])
+        # Miri: data-race / UB interpreter, tiny workload, several scheduler seeds
+        r = subprocess.run(["cargo", "+nightly", "miri", "run", "--offline", "--target-dir", os.path.join(vlib.TARGET, "miri"), "--", "c16stress", "--rounds", "2", "--maxk", "2", "--light-only", "1", "--seed", str(seed)],
+                           cwd=hdir, env=dict(env, RUSTFLAGS="--cfg umya_verif", MIRIFLAGS="-Zmiri-disable-isolation -Zmiri-many-seeds=0..8"), stdout=subprocess.PIPE, stderr=subprocess.PIPE, text=True, timeout=6000)
+        ok = r.returncode == 0
+        v.extra["miri"] = {"seeds": 8, "rounds_per_seed": 2, "exit": r.returncode}
+        if "Undefined Behavior" in r.stderr or "Data race" in r.stderr or "data race" in r.stderr:
+            v.add_divergence("miri-report", [], 1, [{"cmd": "c16stress", "seed": seed, "case": 0, "sig": "miri-report", "features": [], "detail": r.stderr[-1500:]}])
+        elif not ok:
+            if "DIVERGENCE" in r.stdout:
+                v.add_divergence("stress-divergence-under-miri", [], 1, [{"cmd": "c16stress", "seed": seed, "case": 0, "sig": "stress-divergence-under-miri", "features": [], "detail": r.stdout[-1500:]}])
+            else:
+                v.extra["miri"]["note"] = "unavailable or failed to run: " + r.stderr[-300:]
+        else:
+            v.evaluations += 16
+
+
+PROPS = {"C16": C16(), "C13": C13(), "C15": C15(), "C14": C14(), "C07": C07(), "C08": C08(), "C09": C09(), "C10": C10(), "C04": C04(), "C12": C12(), "C02": C02(), "C01": C01(), "C05": C05(), "C06": C06(), "C20": C20(), "C19": C19(), "C17": C17(), "C18": C18()}
